@@ -130,10 +130,20 @@ theorem linv_after_step3 {g : Digraph} {s0 : St} {i w pw : Nat} {s3 s4 : St}
     · simp at hm
     · rw [e5]; exact Or.inr hd
 
-/-- one iteration of `for i in range(n, 1, -1)` -/
-theorem iter23_spec {g : Digraph} {s0 : St} {n : Nat} (C : Ctx g s0 n) {i f : Nat} (hi : 1 ≤ i)
+/-- the Step 3 invariant only depends on the elements of the remaining list -/
+theorem P3.rem_congr {g : Digraph} {s0 : St} {i w pw : Nat} {s : St} {rem rem' : List Nat}
+    (h : P3 g s0 i w pw s rem) (hm : ∀ x, x ∈ rem' ↔ x ∈ rem) : P3 g s0 i w pw s rem' :=
+  ⟨h.core, h.finv, h.semi_lo, h.bucket_o, fun v hv => h.rem_ok v ((hm v).mp hv), fun v hv => by
+    rcases h.dom v hv with h1 | h1 | h1
+    · exact Or.inl h1
+    · exact Or.inr (Or.inl ((hm v).mpr h1))
+    · exact Or.inr (Or.inr h1)⟩
+
+/-- one iteration of `for i in range(n, 1, -1)`, the sets enumerated in any admissible order -/
+theorem iter23_spec {g : Digraph} {s0 : St} {n : Nat} (C : Ctx g s0 n) {o : Order} (ho : o.Adm)
+    {i f : Nat} (hi : 1 ≤ i)
     (hin : i + 1 ≤ n) (hf : ∀ v, s0.semi v < f) {s : St} (y : Option Nat) (h : LInv g s0 (i + 1) s) :
-    ∃ s' y', iter23 f (i + 1) s y = some (s', y') ∧ LInv g s0 i s' := by
+    ∃ s' y', iter23 o f (i + 1) s y = some (s', y') ∧ LInv g s0 i s' := by
   have T := C.tree
   obtain ⟨w, hvw, hw⟩ := C.facts.vertex_semi (i + 1) (by omega) hin
   have hw0 : s0.semi w ≠ 0 := by omega
@@ -143,17 +153,22 @@ theorem iter23_spec {g : Digraph} {s0 : St} {n : Nat} (C : Ctx g s0 n) {i f : Na
   have hP0 : P2 g s0 (i + 1) w s (fun _ => False) :=
     ⟨h.core, h.finv, fun v hv _ => h.semi_lo v hv, by rw [h.semi_lo w (by omega)]; exact Nat.le_refl _,
      Or.inl (h.semi_lo w (by omega)), fun _ hf => hf.elim⟩
-  have hpreds : ∀ v ∈ s.pred w, s0.semi v ≠ 0 ∧ g.Edge v w := by
-    intro v hv; rw [h.core.stat.pred] at hv; exact (C.facts.pred_complete w v).mp hv
-  obtain ⟨s1, y1, hst, hP, hfr, hy⟩ := step2_spec C hw (by omega) hf (s.pred w) s y _ hP0 hpreds
-  have hpwmem : pw ∈ s.pred w := by
+  have hpreds : ∀ v ∈ o.pred (i + 1) (s.pred w), s0.semi v ≠ 0 ∧ g.Edge v w := by
+    intro v hv
+    have hv := ((ho (i + 1) (s.pred w) v).1).mp hv
+    rw [h.core.stat.pred] at hv; exact (C.facts.pred_complete w v).mp hv
+  obtain ⟨s1, y1, hst, hP, hfr, hy⟩ :=
+    step2_spec C hw (by omega) hf (o.pred (i + 1) (s.pred w)) s y _ hP0 hpreds
+  have hpwmem : pw ∈ o.pred (i + 1) (s.pred w) := by
+    apply ((ho (i + 1) (s.pred w) pw).1).mpr
     rw [h.core.stat.pred]; exact (C.facts.pred_complete w pw).mpr ⟨hp0, ep⟩
   have hy1 : y1 = some (s1.semi w) := by
     rcases hy with ⟨h1, _⟩ | h1
     · rw [h1] at hpwmem; simp at hpwmem
     · exact h1
   obtain ⟨sw, hsw, hsw2⟩ := hP.semi_final C hw (by omega) (fun v hv e => by
-    right; rw [h.core.stat.pred]; exact (C.facts.pred_complete w v).mpr ⟨hv, e⟩)
+    right; apply ((ho (i + 1) (s.pred w) v).1).mpr
+    rw [h.core.stat.pred]; exact (C.facts.pred_complete w v).mpr ⟨hv, e⟩)
   have hvsw : s1.vertex (s1.semi w) = some sw := by
     rw [hP.core.stat.vertex, hsw2]; exact (C.facts.semi_vertex sw hsw.1.1).2.2
   have hpar1 : s1.parent w = some pw := by rw [hP.core.stat.parent]; exact hp
@@ -162,7 +177,8 @@ theorem iter23_spec {g : Digraph} {s0 : St} {n : Nat} (C : Ctx g s0 n) {i f : Na
                 ancestor := upd s1.ancestor w (some (some pw)) }
       (upd s1.bucket sw (setAdd (s1.bucket sw) w) pw) :=
     p3_after_link C hw hp h hP hfr hsw hsw2 rfl rfl rfl rfl rfl rfl rfl rfl
-  obtain ⟨s3, hst3, hP3', hb3⟩ := step3_spec C hi hw hp hf _ _ hP3
+  obtain ⟨s3, hst3, hP3', hb3⟩ := step3_spec C hi hw hp hf _ _
+    (hP3.rem_congr (fun x => (ho (i + 1) (upd s1.bucket sw (setAdd (s1.bucket sw) w) pw) x).2))
   refine ⟨{ s3 with bucket := upd s3.bucket pw [] }, y1, ?_,
     linv_after_step3 hP3' rfl rfl rfl rfl rfl rfl rfl rfl⟩
   simp only [iter23]
@@ -170,14 +186,14 @@ theorem iter23_spec {g : Digraph} {s0 : St} {n : Nat} (C : Ctx g s0 n) {i f : Na
   simp only [hst, hy1, hvsw, hpar1, hst3]
 
 /-- the main loop reaches level 1 -/
-theorem steps23_spec {g : Digraph} {s0 : St} {n : Nat} (C : Ctx g s0 n) {f : Nat}
-    (hf : ∀ v, s0.semi v < f) : ∀ (i : Nat) (s : St) (y : Option Nat), 1 ≤ i → i ≤ n →
-      LInv g s0 i s → ∃ s', steps23 f i s y = some s' ∧ LInv g s0 1 s'
+theorem steps23_spec {g : Digraph} {s0 : St} {n : Nat} (C : Ctx g s0 n) {o : Order} (ho : o.Adm)
+    {f : Nat} (hf : ∀ v, s0.semi v < f) : ∀ (i : Nat) (s : St) (y : Option Nat), 1 ≤ i → i ≤ n →
+      LInv g s0 i s → ∃ s', steps23 o f i s y = some s' ∧ LInv g s0 1 s'
   | 0, _, _, h, _, _ => by omega
   | 1, s, _, _, _, h => ⟨s, rfl, h⟩
   | i + 2, s, y, _, hin, h => by
-    obtain ⟨s1, y1, hit, h1⟩ := iter23_spec C (i := i + 1) (by omega) hin hf y h
-    obtain ⟨s', hst, h'⟩ := steps23_spec C hf (i + 1) s1 y1 (by omega) (by omega) h1
+    obtain ⟨s1, y1, hit, h1⟩ := iter23_spec C ho (i := i + 1) (by omega) hin hf y h
+    obtain ⟨s', hst, h'⟩ := steps23_spec C ho hf (i + 1) s1 y1 (by omega) (by omega) h1
     exact ⟨s', by simp only [steps23, hit]; exact hst, h'⟩
 
 /-- the state left by Step 1 satisfies the invariant at level `n` -/
